@@ -103,15 +103,15 @@ func Load(dir string, goos, goarch string, overlay map[string][]byte, full bool)
 		if cur == nil {
 			cur = map[string][]byte{}
 		}
-		for round := 0; round < 6; round++ {
+		for round := 0; round < 8; round++ {
 			phase := 1
-			if round == 0 {
-				phase = 0
+			if round < 2 {
+				phase = round - 1 // -1: types, 0: functions and fields
 			}
 			next, notes, changed := normalizeStep(pkgs, cur, phase, &seq)
 			if !changed {
 				normNotes = append(normNotes, notes...)
-				if phase == 0 {
+				if phase < 1 {
 					continue
 				}
 				break
